@@ -412,9 +412,14 @@ func (d *Data) ServeHTTP(uuid dvid.UUID, ctx *datastore.VersionedCtx, w http.Res
 				server.BadRequest(w, r, "Must choose channel from 0 to %d", len(values))
 				return
 			}
+			numVoxels := slice.NumVoxels()
+			if numVoxels <= 0 {
+				server.BadRequest(w, r, "illegal geometry requested: %s", slice)
+				return
+			}
 			stride := slice.Size().Value(0) * values.BytesPerElement()
 			dataValues := dvid.DataValues{values[channelNum]}
-			data := make([]uint8, int(slice.NumVoxels()))
+			data := make([]uint8, int(numVoxels))
 			v := imageblk.NewVoxels(slice, dataValues, data, stride)
 			channel := &Channel{
 				Voxels:     v,
